@@ -86,6 +86,7 @@ ObsVec(e) == [k \in 1..Len(e.snap) |->
 LookupsOK(e) ==
     LET v == ObsVec(e) IN
     /\ e.count = Len(v)
+    /\ ("ncok" \in DOMAIN e => e.ncok)         \* the non-const accessors return the same objects as the const ones
     /\ \A x \in 1..Len(e.devlookup) : e.devlookup[x].idx = LookupDev(v, e.devlookup[x].dev)
     /\ \A k \in 1..Len(v) : \A x \in 1..Len(e.snap[k].iflookup) :
            e.snap[k].iflookup[x].idx = LookupIf(v[k].ifs, e.snap[k].iflookup[x].id)
